@@ -55,7 +55,10 @@ def frame_text(fr: Dict[str, Any], op_id: str = "x"):
     if k == "nonjson":
         return fr.get("text", "not json {")
     if k == "unknown":
-        return J({"type": fr.get("type", "weird"), "id": op_id})
+        d = {"type": fr.get("type", "weird"), "id": op_id}
+        if fr.get("payload") is not None:
+            d["payload"] = fr["payload"]          # (a case variant of a known type dressed like the real frame: still unknown)
+        return J(d)
     if k == "notype":
         v = fr.get("variant", 0)
         # a frame without a (usable) type: objects lacking it, and JSON values that are
